@@ -313,11 +313,87 @@ static int drive(int start, int nexec, int maxnodes)
 	return 0;
 }
 
+/* ---- chains: a tree that is ONE path of N nested containers around a scalar, N up to tens of thousands (built through
+ * the API: no parser limit applies).  With a callback that always continues the visitor makes 2N+1 calls and returns
+ * 0; with one that reports an error at the scalar it makes N+1 calls and returns -1.  Runs on a thread with a large
+ * stack: the visitor and json_object_put both recurse once per level. */
+#include <pthread.h>
+static long deep_calls;
+static int deep_err_at_leaf;
+static int deep_cb(json_object *jso, int flags, json_object *parent, const char *key, size_t *idx, void *arg)
+{
+	(void)flags;
+	(void)parent;
+	(void)key;
+	(void)idx;
+	(void)arg;
+	deep_calls++;
+	if (deep_err_at_leaf && json_object_get_type(jso) == json_type_int)
+		return JSON_C_VISIT_RETURN_ERROR;
+	return JSON_C_VISIT_RETURN_CONTINUE;
+}
+static void *deep_thread(void *a)
+{
+	static const int ns[] = {1, 1000, 16383, 16384, 16385, 20000, 32768, 40000};
+	(void)a;
+	for (unsigned i = 0; i < sizeof ns / sizeof *ns; i++)
+	{
+		int n = ns[i];
+		json_object *cur = json_object_new_int(7);
+		for (int k = 0; k < n; k++)
+		{
+			json_object *c;
+			if (k % 3 == 2)
+			{
+				c = json_object_new_object();
+				json_object_object_add(c, "k", cur);
+			}
+			else
+			{
+				c = json_object_new_array();
+				json_object_array_add(c, cur);
+			}
+			cur = c;
+		}
+		deep_calls = 0;
+		deep_err_at_leaf = 0;
+		int r1 = json_c_visit(cur, 0, deep_cb, NULL);
+		long c1 = deep_calls;
+		deep_calls = 0;
+		deep_err_at_leaf = 1;
+		int r2 = json_c_visit(cur, 0, deep_cb, NULL);
+		long c2 = deep_calls;
+		json_object_put(cur);
+		ev_begin("new");
+		ev_end();
+		ev_begin("vdeep");
+		ev_int("n", n);
+		ev_int("calls", c1);
+		ev_int("ret", r1);
+		ev_int("calls_err", c2);
+		ev_int("ret_err", r2);
+		ev_end();
+	}
+	return NULL;
+}
+static int deep(void)
+{
+	pthread_attr_t at;
+	pthread_t th;
+	pthread_attr_init(&at);
+	pthread_attr_setstacksize(&at, (size_t)1 << 30);
+	if (pthread_create(&th, &at, deep_thread, NULL))
+		return 2;
+	pthread_join(th, NULL);
+	return 0;
+}
 int c17_main(int argc, char **argv)
 {
 	/* the library prints a message for invalid return codes */
 	if (!freopen("/dev/null", "w", stderr))
 		return 2;
+	if (argc >= 1 && !strcmp(argv[0], "deep"))
+		return deep();
 	if (argc >= 3 && !strcmp(argv[0], "replay"))
 		return replay(argv[1], atol(argv[2]));
 	if (argc >= 4 && !strcmp(argv[0], "drive"))
